@@ -248,6 +248,17 @@ pub fn run(tier: &str) -> Report {
                 }}
             }}
         }
+        if host.has_difficulty {
+            // the same runs with a time label inside (a folded statement has only one time): all triples of pairwise
+            // disjoint masks, label before the 2nd or the 3rd instruction
+            let labels = ["0", "1", "01", "02", "13", "3", "23", "012", "2", "12", "123"];
+            let mask = |l: &str| l.chars().fold(0u8, |m, c| m | 1 << c.to_digit(10).unwrap());
+            for a in labels { for b in labels { for c in labels {
+                if mask(a) & mask(b) != 0 || mask(a) & mask(c) != 0 || mask(b) & mask(c) != 0 { continue; }
+                bodies.push((format!("{{ {{\"{a}\"}}: mS(10); {{\"{b}\"}}: mS(20); +5: {{\"{c}\"}}: mS(30); +7: m0(); }}"), "diffrun-timed"));
+                bodies.push((format!("{{ {{\"{a}\"}}: mS(10); +5: {{\"{b}\"}}: mS(20); {{\"{c}\"}}: mS(30); }}"), "diffrun-timed"));
+            }}}
+        }
         let mut seen_plain = BTreeSet::new();
         let (pn, pb) = if thorough { (4, 4) } else { (3, 3) };
         for n in 1..=pn { explore_dfs(pb, 100_000, &|ch| gen_plain(ch, &host, n), &mut |_, b| { if seen_plain.insert(b.clone()) { bodies.push((b, "plain")); } }); }
